@@ -335,6 +335,12 @@ def do_check(prop, tier, seed, workdir, t0):
         elif fails:
             for f in fails:
                 f = dict(f)
+                # the witness of a fixed finding may lie inside the trigger region of an *open* finding (e.g. the smallest
+                # input of F02 leaves no group at all, where median still raises: K03): that is the open finding, not a regression
+                fid = kf.classify(prop, f, findings)
+                if fid:
+                    known_hits[fid] += 1
+                    continue
                 f["detail"] = f"regression of fixed finding {c['id']}: " + f.get("detail", "")
                 violations.setdefault("regression|" + c["id"] + "|" + failure_sig(f), []).append(f)
     for fid, cnt in known_hits.items():
